@@ -345,6 +345,23 @@ func genImportCase(r *simrt.Rand, c *Case) *Case {
 	}
 	c.Files = map[string]string{"/w/statement.input": text}
 	c.Args = append(append([]string{}, im.args...), "/w/statement.input")
+	if im.name == "revolut2" && r.P(0.4) {
+		// one statement per account ("download one CSV file per account"), bookings on the same days
+		c.Files = map[string]string{}
+		c.Args = append([]string{}, im.args...)
+		for i, cur := range []string{"CHF", "EUR", "USD"}[:r.Range(2, 3)] {
+			var sb strings.Builder
+			sb.WriteString("Type,Product,Started Date,Completed Date,Description,Amount,Fee,Currency,State,Balance\n")
+			for k := r.Range(1, 5); k > 0; k-- {
+				day := r.Range(1, 3)
+				fmt.Fprintf(&sb, "CARD_PAYMENT,Current,2020-07-%02d 10:00:00,2020-07-%02d 12:00:00,shop %d,-%d.50,0.00,%s,COMPLETED,%d.00\n", day, day, k, r.Range(1, 90), cur, r.Range(100, 900))
+			}
+			name := fmt.Sprintf("/w/%s.csv", strings.ToLower(cur))
+			c.Files[name] = sb.String()
+			c.Args = append(c.Args, name)
+			_ = i
+		}
+	}
 	c.Scheds = []Sched{CanonSched()}
 	for i := 0; i < 5; i++ {
 		c.Scheds = append(c.Scheds, RandSched(r))
